@@ -137,8 +137,12 @@ static char g_ctx_harness[64] = "?", g_ctx_class[64] = "?", g_ctx_outdir[512] = 
 static uint64_t g_ctx_seed; static long g_ctx_run;
 static mvsim_plan_dumper_t g_plan_dumper;
 
+/* read-only sites: the code after such a point performs no shared write before the next point.
+   The explicit points in front of a CAS are read-only since every __sync builtin is a point itself. */
 static const unsigned char site_ro[MYTH_VS_N_SITES] = {
   [MYTH_VS_Q_POP_QC] = 1, [MYTH_VS_Q_TAKE_QC] = 1, [MYTH_VS_Q_PEEK_QC] = 1,
+  [MYTH_VS_SPIN_TRY] = 1, [MYTH_VS_MUTEX_CAS] = 1, [MYTH_VS_BARRIER_CAS] = 1, [MYTH_VS_JC_CAS] = 1, [MYTH_VS_ONCE_CAS] = 1,
+  [MYTH_VS_SSTACK_CAS] = 1, [MYTH_VS_KEY_CAS] = 1, [MYTH_VS_INIT_CAS] = 1,
 };
 
 int mvsim_active(void) { return g_active; }
@@ -506,7 +510,8 @@ worker *mvsim_dispatch(struct mvreq *r) {
   g_st.steps++;
   if (r->site >= 0 && r->site < 160) g_st.probe[r->site]++;
   /* progress accounting (see DESIGN 2.2) */
-  if (r->kind == RQ_SPIN && r->site == MYTH_VS_SPIN_LOOP && w->last_kind == RQ_POINT && w->last_site == MYTH_VS_SPIN_TRY)
+  if (r->kind == RQ_SPIN && r->site == MYTH_VS_SPIN_LOOP && w->last_kind == RQ_POINT
+      && (w->last_site == MYTH_VS_SPIN_TRY || w->last_site == MYTH_VS_ATOMIC))
     w->dirty = 0;  /* the CAS of this iteration failed: nothing was written */
   if (w->dirty) { g_progress++; w->dirty = 0; }
   switch (r->kind) {
